@@ -173,7 +173,10 @@ class Timeline(object):
         items = []
         for d in dicts:
             time = d["time"]
-            if isinstance(time, datetime.date):
+            if isinstance(time, datetime.datetime):
+                # a datetime is also a date: keep its time of day
+                pass
+            elif isinstance(time, datetime.date):
                 time = datetime.datetime.combine(
                     time, datetime.datetime.min.time()
                 )
